@@ -40,6 +40,7 @@ type syncHarness struct {
 	c       *vk.Case
 	acks    int
 	mat     int
+	synced  bool
 	primary database.DB
 	rs      []*dbReplica
 
@@ -160,7 +161,8 @@ func (h *syncHarness) fetch(r *dbReplica, allowFirst, skipIntegrity bool) {
 		hdr, err := r.db.ReplicateTx(context.Background(), bs, skipIntegrity, false)
 		if err != nil {
 			after, _ := r.db.CurrentState()
-			windowFull := before.PrecommittedTxId-before.TxId >= uint64(h.mat) &&
+			// (synced stores: the check is made on in-memory counters that run ahead of the durable ones sampled here)
+			windowFull := (h.synced || before.PrecommittedTxId-before.TxId >= uint64(h.mat)) &&
 				(strings.Contains(err.Error(), store.ErrMaxActiveTransactionsLimitExceeded.Error()) || strings.Contains(err.Error(), store.ErrBufferIsFull.Error()))
 			if !windowFull {
 				h.failf("replica %d (committed %d, precommitted %d) refuses the primary's export of tx %d: %v", r.i, before.TxId, before.PrecommittedTxId, req.Tx, err)
@@ -189,7 +191,8 @@ func (h *syncHarness) dup(r *dbReplica) {
 	if err == nil || !strings.Contains(err.Error(), "tx already committed") {
 		h.failf("replica %d: duplicated delivery: err=%v", r.i, err)
 	}
-	if before.TxId != after.TxId || before.PrecommittedTxId != after.PrecommittedTxId || !bytes.Equal(before.PrecommittedTxHash, after.PrecommittedTxHash) {
+	// (the committed id may move on its own: an allowed commit is performed by the syncer)
+	if after.TxId < before.TxId || before.PrecommittedTxId != after.PrecommittedTxId || !bytes.Equal(before.PrecommittedTxHash, after.PrecommittedTxHash) {
 		h.failf("replica %d: duplicated delivery changed the state", r.i)
 	}
 }
@@ -241,7 +244,7 @@ func TestSyncReplicationDB(t *testing.T) {
 			}
 			return o
 		}
-		h := &syncHarness{rt: rt, c: c, acks: acks, mat: mat}
+		h := &syncHarness{rt: rt, c: c, acks: acks, mat: mat, synced: synced}
 		var err error
 		h.primary, err = database.NewDB("primary", nil,
 			database.DefaultOptions().WithDBRootPath(root).WithStoreOptions(sopts()).WithSyncReplication(true).WithSyncAcks(acks), quietLog())
